@@ -25,6 +25,7 @@ static rq_request shared[NSHARED]; static int nshared;
 static pixman_region32_t shreg[3];
 static pthread_barrier_t barrier;
 static int yield_mode;
+static int no_shared;      /* cold-start rounds: nothing has used the library before the threads do */
 
 static uint64_t image_digest (pixman_image_t *img)
 {
@@ -38,8 +39,9 @@ static void maybe_yield (vf_rng *r)
     int k = (int)(vf_next (r) % 8);
     if (k < 3) sched_yield (); else if (k == 3) { volatile int s = 0; for (int i = 0; i < 2000; i++) s += i; }
 }
-static pixman_image_t *shared_src (vf_rng *r) { rq_request *q = &shared[vf_next (r) % nshared]; return q->src.img; }
-static pixman_image_t *shared_mask (vf_rng *r) { rq_request *q = &shared[vf_next (r) % nshared]; return q->has_mask && q->mask.img ? q->mask.img : NULL; }
+static pixman_image_t *shared_src (vf_rng *r) { uint64_t k = vf_next (r); if (no_shared) return NULL; rq_request *q = &shared[k % nshared]; return q->src.img; }
+static pixman_image_t *shared_mask (vf_rng *r) { uint64_t k = vf_next (r); if (no_shared) return NULL; rq_request *q = &shared[k % nshared]; return q->has_mask && q->mask.img ? q->mask.img : NULL; }
+static pixman_image_t *own_solid (vf_rng *r) { pixman_color_t c = { (uint16_t)vf_next (r), (uint16_t)vf_next (r), (uint16_t)vf_next (r), (uint16_t)(vf_next (r) | 0x8000) }; return pixman_image_create_solid_fill (&c); }
 
 static void random_region (vf_rng *r, pixman_region32_t *out)
 {
@@ -60,6 +62,7 @@ static uint64_t one_op (stream_t *s, int i, vf_rng *r)
         if (!rq_build (&q, r)) return 1;
         if (kind == K_PRIVATE) { rq_run (&q); snprintf (s->what[i], 40, "%s", ro_op_name (q.op)); }
         else { pixman_image_t *src = shared_src (r), *mask = vf_chance (r, 1, 3) ? shared_mask (r) : q.has_mask ? q.mask.img : NULL;
+               if (!src) src = q.src.img;
                pixman_image_composite32 (q.op, src, mask, q.dst.img, q.sx, q.sy, q.mx, q.my, q.dx, q.dy, q.w, q.h); snprintf (s->what[i], 40, "%s", ro_op_name (q.op)); }
         d = rq_digest (&q); s->pixels += (long)q.dst.w * q.dst.h; rq_free (&q); break; }
     case K_WIDE: {
@@ -69,7 +72,8 @@ static uint64_t one_op (stream_t *s, int i, vf_rng *r)
         pixman_image_t *dst = pixman_image_create_bits (f, w, h, NULL, 0); if (!dst) return 1;
         uint32_t *p = pixman_image_get_data (dst); int n = pixman_image_get_stride (dst) * h / 4; for (int j = 0; j < n; j++) p[j] = vf_u32 (r);
         pixman_image_t *src = NULL, *own = NULL;
-        if (vf_chance (r, 1, 2)) src = shared_src (r); else { pixman_color_t c = { (uint16_t)vf_next (r), (uint16_t)vf_next (r), (uint16_t)vf_next (r), (uint16_t)vf_next (r) }; own = src = pixman_image_create_solid_fill (&c); }
+        if (vf_chance (r, 1, 2)) src = shared_src (r);
+        if (!src) own = src = own_solid (r);
         static const pixman_op_t ops[] = { PIXMAN_OP_OVER, PIXMAN_OP_DISJOINT_OVER, PIXMAN_OP_CONJOINT_XOR, PIXMAN_OP_MULTIPLY, PIXMAN_OP_HSL_HUE, PIXMAN_OP_SATURATE, PIXMAN_OP_ADD, PIXMAN_OP_COLOR_DODGE };
         pixman_op_t op = VF_PICK (r, ops); pixman_image_t *mask = vf_chance (r, 1, 3) ? shared_mask (r) : NULL;
         if (src) pixman_image_composite32 (op, src, mask, dst, (int)vf_range (r, -3, 3), 0, 0, 0, 0, 0, w, h);
@@ -84,7 +88,7 @@ static uint64_t one_op (stream_t *s, int i, vf_rng *r)
         d = image_digest (dst); s->pixels += 100; pixman_image_unref (dst); break; }
     case K_REGION: {
         pixman_region32_t a, b, o; random_region (r, &a); random_region (r, &b); pixman_region32_init (&o);
-        pixman_region32_t *x = vf_chance (r, 1, 2) ? &shreg[vf_next (r) % 3] : &b;       /* a shared read-only operand half of the time */
+        uint64_t pick = vf_next (r); pixman_region32_t *x = (pick & 1) && !no_shared ? &shreg[(pick >> 1) % 3] : &b;       /* a shared read-only operand half of the time */
         int w = (int)(vf_next (r) % 5);
         switch (w) { case 0: pixman_region32_union (&o, &a, x); break; case 1: pixman_region32_intersect (&o, &a, x); break; case 2: pixman_region32_subtract (&o, x, &a); break;
                      case 3: { pixman_box32_t bx = { -50, -50, 60, 60 }; pixman_region32_inverse (&o, x, &bx); break; } default: pixman_region32_copy (&o, x); pixman_region32_translate (&o, (int)vf_range (r, -9, 9), 3); break; }
@@ -118,11 +122,12 @@ static uint64_t one_op (stream_t *s, int i, vf_rng *r)
             uint32_t *p = pixman_image_get_data (gi); int n = pixman_image_get_stride (gi) * pixman_image_get_height (gi) / 4; for (int q = 0; q < n; q++) p[q] = vf_u32 (r);
             const void *h = pixman_glyph_cache_insert (c, (void *)(uintptr_t)(s->tid + 1), (void *)(uintptr_t)(j + 1), (int)vf_range (r, -2, 2), (int)vf_range (r, -2, 2), gi); pixman_image_unref (gi);
             if (h) { g[ng].glyph = h; g[ng].x = (int)vf_range (r, -3, 55); g[ng].y = (int)vf_range (r, -2, 12); ng++; } }
-        pixman_image_t *src = shared_src (r); pixman_op_t op = VF_PICK (r, ((pixman_op_t[]){ PIXMAN_OP_OVER, PIXMAN_OP_ADD, PIXMAN_OP_SRC }));
-        if (ng) { if (vf_chance (r, 1, 2)) pixman_composite_glyphs_no_mask (op, src, dst, 1, 2, 0, 0, c, ng, g);
+        pixman_image_t *own = NULL, *src = shared_src (r); if (!src) own = src = own_solid (r);
+        pixman_op_t op = VF_PICK (r, ((pixman_op_t[]){ PIXMAN_OP_OVER, PIXMAN_OP_ADD, PIXMAN_OP_SRC }));
+        if (ng && src) { if (vf_chance (r, 1, 2)) pixman_composite_glyphs_no_mask (op, src, dst, 1, 2, 0, 0, c, ng, g);
                   else pixman_composite_glyphs (op, src, dst, pixman_glyph_get_mask_format (c, ng, g), 1, 2, 0, 0, 0, 0, pixman_image_get_width (dst), pixman_image_get_height (dst), c, ng, g); }
         pixman_glyph_cache_thaw (c); snprintf (s->what[i], 40, "glyphs n=%d %s", ng, ro_op_name (op));
-        d = image_digest (dst); s->pixels += 300; pixman_image_unref (dst); pixman_glyph_cache_destroy (c); break; }
+        d = image_digest (dst); s->pixels += 300; pixman_image_unref (dst); pixman_glyph_cache_destroy (c); if (own) pixman_image_unref (own); break; }
     default: {
         int w = (int)vf_range (r, 1, 120), h = (int)vf_range (r, 1, 6), bpp = VF_PICK (r, ((int[]){ 8, 16, 32 })); int stride = (w * bpp / 8 + 3) / 4;
         uint32_t *a = malloc ((size_t)stride * 4 * h), *b = malloc ((size_t)stride * 4 * h); if (!a || !b) { free (a); free (b); return 1; }
@@ -159,8 +164,54 @@ static void build_shared (vf_rng *r)
 }
 static void free_shared (void) { for (int i = 0; i < nshared; i++) rq_free (&shared[i]); nshared = 0; for (int i = 0; i < 3; i++) pixman_region32_fini (&shreg[i]); }
 
+/* ---- cold-start rounds: a forked child whose very first library calls are made by T threads at once (nothing is shared,
+ * nothing has been drawn before), compared with another child that runs the same streams one after the other.
+ * This is where lazily initialised process-wide state (implementation choice, CPU-feature memo) would be raced on. */
+#include <sys/mman.h>
+#include <sys/wait.h>
+#include <unistd.h>
+typedef struct { uint64_t dig[MAXTHREADS][MAXOPS]; uint8_t kind[MAXTHREADS][MAXOPS]; int done; } cold_result;
+static int cold_child (cold_result *out, int T, int nops, uint64_t seed, int concurrent)
+{
+    fflush (NULL);
+    pid_t pid = fork (); if (pid < 0) return -1;
+    if (pid == 0) {
+        no_shared = 1;
+        for (int t = 0; t < T; t++) { memset (&conc[t], 0, sizeof conc[t]); conc[t].tid = t; conc[t].seed = seed; conc[t].nops = nops; }
+        if (concurrent) { pthread_t th[MAXTHREADS]; pthread_barrier_init (&barrier, NULL, (unsigned)T);
+            for (int t = 0; t < T; t++) if (pthread_create (&th[t], NULL, thread_main, &conc[t])) _exit (3);
+            for (int t = 0; t < T; t++) pthread_join (th[t], NULL); }
+        else for (int t = 0; t < T; t++) run_stream (&conc[t], 0);
+        for (int t = 0; t < T; t++) { memcpy (out->dig[t], conc[t].dig, sizeof out->dig[t]); memcpy (out->kind[t], conc[t].kind, sizeof out->kind[t]); }
+        out->done = 1;
+        fflush (NULL); _exit (0);
+    }
+    int st = 0; if (waitpid (pid, &st, 0) < 0) return -1;
+    return WIFEXITED (st) ? WEXITSTATUS (st) : 128 + WTERMSIG (st);
+}
+static void cold_case (long idx, vf_rng *r)
+{
+    static const int tc[] = { 4, 8, 16, 2 }; int T = tc[idx % 4]; int nops = (int)vf_range (r, 4, 16); yield_mode = 0; uint64_t seed = vf_next (r);
+    cold_result *res = mmap (NULL, 2 * sizeof (cold_result), PROT_READ | PROT_WRITE, MAP_SHARED | MAP_ANONYMOUS, -1, 0); if (res == MAP_FAILED) vf_fatal ("mmap failed");
+    memset (res, 0, 2 * sizeof (cold_result));
+    vf_case_desc ("cold start: %d threads x %d calls as the first library use of a fresh process, stream seed %llx", T, nops, (unsigned long long)seed);
+    vf_inflight ("cold start serial child: %d x %d", T, nops);
+    int rc0 = cold_child (&res[0], T, nops, seed, 0);
+    vf_inflight ("cold start concurrent child: %d x %d", T, nops);
+    int rc1 = cold_child (&res[1], T, nops, seed, 1);
+    if (rc0 != 0 || !res[0].done) vf_fatal ("cold-start serial child failed (rc %d)", rc0);
+    if (rc1 != 0 || !res[1].done) { char key[80]; snprintf (key, sizeof key, "C16:cold-start-concurrent-child-died:rc%d", rc1); vf_violation (key, "the process whose first library calls were made by %d threads at once ended with status %d; the same streams run one after the other completed", T, rc1); }
+    else for (int t = 0; t < T; t++) for (int i = 0; i < nops; i++) { vf_count (kname[res[0].kind[t][i]], 1);
+        if (res[0].dig[t][i] != res[1].dig[t][i]) { char key[100]; snprintf (key, sizeof key, "C16:result-differs-from-running-alone:cold-start:%s", kname[res[0].kind[t][i]]);
+            vf_violation (key, "thread %d call %d: digest %016llx when %d threads make the first library calls of the process at once, %016llx when run alone", t, i, (unsigned long long)res[1].dig[t][i], T, (unsigned long long)res[0].dig[t][i]); }
+        vf_cell ("cells", vf_mix (res[0].dig[t][i], 100 + res[0].kind[t][i])); }
+    vf_count ("evaluations", (long)T * nops); vf_count ("concurrent_calls", (long)T * nops); vf_count ("cold_start_rounds", 1); vf_count ("rounds", 1); vf_count ("threads_started", T); vf_label ("threads", "cold start, %d threads", T);
+    munmap (res, 2 * sizeof (cold_result));
+}
+
 static void thread_case (long idx, vf_rng *r)
 {
+    if (vf.config && strstr (vf.config, "cold")) { cold_case (idx, r); return; }
     static const int tc[] = { 2, 4, 8, 16, 16, 8 }; int T = tc[idx % 6];
     int nops = (int)vf_range (r, 8, MAXOPS); yield_mode = (int)(idx / 6 % 2);
     uint64_t seed = vf_next (r);
